@@ -640,6 +640,19 @@ theorem not_deployed_never_planned (c : Cfg) (hc : c.sites.Nodup) (i : Nat)
   have := key ds init inv_init rfl (fun y => by simp [init, done])
   exact ⟨neverIssued_not_planned c hc i hn d _ this.1 this.2.1, this.2.2⟩
 
+/-- the same for the planner a schedule builds for a site where the method is not deployed (or that
+has no survey frequency for a mobile method): never planned, never counted -/
+theorem not_deployed_never_surveyed (c : Cfg) (hc : c.sites.Nodup) (i : Nat)
+    (stationary : Bool) (freq : Option Nat) (deploy : Bool) (months years : List Nat)
+    (plan : List (Nat × Nat)) (S : Int) (a b : Date)
+    (hP : c.P i = mkPlannerP stationary freq deploy months years plan S a b)
+    (hnd : deploy = false ∨ (stationary = false ∧ freq = none)) (ds : List DayIn) (d : DayIn) :
+    i ∉ planOn c d (runDays c ds) ∧ ∀ y, done ((runDays c ds).pl i) y = 0 := by
+  apply not_deployed_never_planned c hc i
+  intro dt ps
+  rw [hP]
+  exact (not_deployed_never_requested stationary freq deploy months years plan S a b hnd c.kind dt ps).2
+
 /-! ### `done ≤ required` under a static, decidable hypothesis -/
 
 /-- every deployed planner of the method has all simulated years among its deployment years and its
@@ -721,6 +734,22 @@ theorem calendar_when_nothing_carried (c : Cfg) (hc : c.sites.Nodup) (s : State)
   have := calendar_partial c hc s hi d i hp hout
   rw [hq i] at this
   exact Bool.noConfusion this
+
+/-- the same from any state in which nothing is outstanding at the first day of the year (whatever
+happened before — crew shortage, weather — as long as it was worked off): feasibility is needed
+only on the days of the year itself -/
+theorem all_done_in_year_from_quiet (c : Cfg) (hc : c.sites.Nodup) (hk : c.kind = .routine) (i : Nat)
+    (his : i ∈ c.sites) (y : Nat) (hy : y ∈ (c.P i).depYears ∧ y ∈ (c.P i).simYears)
+    (s : State) (hi : Inv s) (hq : Quiet s) (h0 : done (s.pl i) y = 0)
+    (yr : List DayIn) (hf : ∀ d ∈ yr, Feasible c d) (hyr : ∀ d ∈ yr, d.date.y = y)
+    (hdates : (yr.map md).Pairwise mdLt)
+    (hlen : (c.P i).plan.length = (c.P i).rs) (hplan : (c.P i).plan.Pairwise mdLt)
+    (hin : ∀ pd ∈ (c.P i).plan, pd ∈ yr.map md ∧ pd.1 ∈ (c.P i).months) :
+    done ((yr.foldl (fun s d => scheduleDay c d s) s).pl i) y = required (c.P i) y := by
+  rw [feasible_year c hc hk i his y hy yr s hi hq hf hyr, h0]
+  have hreq : required (c.P i) y = (c.P i).rs := by unfold required; simp [hy.1, hy.2]
+  rw [hreq, ← hlen]
+  exact year_count (c.P i) hlen hplan (yr.map md) 0 (Nat.zero_le _) hdates (by simpa using hin)
 
 /-! ### the property at full strength, and what is false of the code as it stands -/
 
@@ -830,6 +859,26 @@ theorem C06_feasible_counterexample : ¬ C06_feasible_statement := by
   decide +kernel
 
 /-! ### non-vacuity -/
+
+/-- `StaticYears` is decidable and holds for the ordinary configuration (and for the January witness) -/
+example : StaticYears cexCfg
+    [{ date := ⟨2024, 1, 31⟩, out := allCompleted }, { date := ⟨2024, 2, 1⟩, out := allCompleted }] := by decide
+
+/-- … and fails exactly for the year-carry witness of `C06_count_counterexample` -/
+example : ¬ StaticYears cexCount
+    [{ date := ⟨2024, 12, 31⟩, out := allCompleted }, { date := ⟨2025, 1, 1⟩, out := allCompleted }] := by decide
+
+/-- stationary schedule over New Year's Eve of a leap year and the following day, all workable: both
+days are observed (the requirement 365 plays no role) -/
+example :
+    let c : Cfg := { kind := .stationary, crews := 1, cap := 1, sites := [1],
+                     P := fun _ => { rs := 365, months := [1, 12], depYears := [2024, 2025],
+                                     simYears := [2024, 2025] } }
+    let ds : List DayIn := [{ date := ⟨2024, 12, 30⟩, out := allCompleted },
+      { date := ⟨2024, 12, 31⟩, out := allCompleted }, { date := ⟨2025, 1, 1⟩, out := allCompleted }]
+    done ((runDays c ds).pl 1) 2024 = 2 ∧ done ((runDays c ds).pl 1) 2025 = 1 := by
+  decide +kernel
+
 
 /-- a full-calendar configuration satisfying every hypothesis of `all_done_when_feasible`:
 months Feb–May, 2 surveys, plan Feb 1 / Apr 1 -/
